@@ -141,30 +141,61 @@ func H_C01_in_num() {
 	verif.Reach("end")
 }
 
-// H_C01_between_num: inclusive [NOT] BETWEEN on small integers (the
-// implementation formats the operands, so values are digit-mode integers).
+// H_C01_between_num: inclusive [NOT] BETWEEN on numbers: agrees with
+// `a >= lo AND a <= hi`.
 func H_C01_between_num() {
-	n := verif.Choose("rows", maxRows(1, 2)+1)
+	n := verif.Choose("rows", maxRows(2, 3)+1)
 	neg := verif.Choose("not", 2)
-	rows := make([]Map, n)
-	arr := make([]any, n)
-	for i := range rows {
-		rows[i] = Map{"a": float64(verif.IntRange("a", 0, 11))}
-		arr[i] = rows[i]
-	}
-	lo, hi := verif.IntRange("lo", 0, 11), verif.IntRange("hi", 0, 11)
+	doc, rows := numTable(n, "a")
+	lo, hi := verif.F64("lo"), verif.F64("hi")
 	kw := " BETWEEN "
 	if neg == 1 {
 		kw = " NOT BETWEEN "
 	}
-	got, ok := runQuery(Map{"t": arr}, verif.SQL("SELECT * FROM t WHERE a"+kw+"? AND ?", lo, hi))
+	got, ok := runQuery(doc, verif.SQL("SELECT * FROM t WHERE a"+kw+"? AND ?", lo, hi))
 	if !ok {
 		return
 	}
 	var want []Map
 	for _, r := range rows {
 		a := f64of(r["a"])
-		in := a >= float64(lo) && a <= float64(hi)
+		in := a >= lo && a <= hi
+		if in != (neg == 1) {
+			want = append(want, r)
+		}
+	}
+	sameRows(got, want, "filter")
+	// x BETWEEN lo AND hi agrees with x >= lo AND x <= hi
+	kw2 := "a >= ? AND a <= ?"
+	if neg == 1 {
+		kw2 = "NOT (a >= ? AND a <= ?)"
+	}
+	got2, ok := runQuery(doc, verif.SQL("SELECT * FROM t WHERE "+kw2, lo, hi))
+	if !ok {
+		return
+	}
+	verif.Assert(verif.Eq(got, got2), "agrees-with-ge-and-le")
+	verif.Reach("end")
+}
+
+// H_C01_between_str: BETWEEN on strings (byte-wise order, inclusive).
+func H_C01_between_str() {
+	n := verif.Choose("rows", maxRows(1, 2)+1)
+	neg := verif.Choose("not", 2)
+	doc, rows := strTable(n, 2, "ab", "a")
+	lo, hi := verif.Str("lo", 2, "ab"), verif.Str("hi", 2, "ab")
+	kw := " BETWEEN "
+	if neg == 1 {
+		kw = " NOT BETWEEN "
+	}
+	got, ok := runQuery(doc, verif.SQL("SELECT * FROM t WHERE a"+kw+"? AND ?", lo, hi))
+	if !ok {
+		return
+	}
+	var want []Map
+	for _, r := range rows {
+		a := strof(r["a"])
+		in := a >= lo && a <= hi
 		if in != (neg == 1) {
 			want = append(want, r)
 		}
@@ -306,7 +337,7 @@ func H_C01_like() {
 	if pat == "\\\\" {
 		patText = "\\"
 	}
-	alpha := "abAB"
+	alpha := "abAB\n"
 	for i := 0; i < len(patText); i++ {
 		c := patText[i]
 		if c != '%' && c != '_' && !(c >= 'a' && c <= 'z') && !(c >= 'A' && c <= 'Z') {
